@@ -69,6 +69,15 @@ def inject_errors(schema, rng):
                     yield 'fn-arg-names-unknown-pattern', (ri, si), with_cons((p, [('fn', '$eq', [('pat', 'nowhere')])]))
                     yield 'temporary-pattern-as-option', (ri, si), with_cons((p, [('pat', '_t')]))
                     yield 'temporary-pattern-as-fn-arg', (ri, si), with_cons((p, [('fn', '$eq', [('lit', 'a'), ('pat', '_')])]))
+            # the same four errors in a constraint whose left-hand side is a named pattern that occurs only in OTHER rules (named
+            # patterns are schema-wide, so the left-hand side is fine; the value is what is wrong)
+            elsewhere = sorted({c[1] for r2 in rules for c in r2['comps'] if c[0] == 'pat' and not c[1].startswith('_')} - set(named))
+            if elsewhere:
+                q = elsewhere[(ri + si) % len(elsewhere)]
+                yield 'option-names-unknown-pattern:lhs-of-another-rule', (ri, si), with_cons((q, [('lit', 'a'), ('pat', 'nowhere')]))
+                yield 'fn-arg-names-unknown-pattern:lhs-of-another-rule', (ri, si), with_cons((q, [('fn', '$eq', [('pat', 'nowhere')])]))
+                yield 'temporary-pattern-as-option:lhs-of-another-rule', (ri, si), with_cons((q, [('pat', '_t')]))
+                yield 'temporary-pattern-as-fn-arg:lhs-of-another-rule', (ri, si), with_cons((q, [('fn', '$eq', [('lit', 'a'), ('pat', '_')])]))
             yield 'constraint-on-unknown-temporary', (ri, si), with_cons(('_nowhere', [('lit', 'a')]))
             # a temporary pattern that occurs in ANOTHER definition of the same rule id (or in another rule) but not in this one
             foreign = sorted({c[1] for r2 in rules for c in r2['comps'] if c[0] == 'pat' and c[1].startswith('_')} - set(temps))
